@@ -7,14 +7,13 @@ Model: `Arc/Model/C07.lean` (durability LTS with ghost row ids; code facts = `Ar
 A trace is a list of events, each with the harness' observation of which hour files a partial
 multi-hour flush managed to write.
 
-The property FAILS on the current tree in every clause (each class replayed on the real code by the
-harness, see `props/C07.py`).  Full statements, kept visible:
+The first two clauses FAIL on the current tree (each class replayed on the real code by the harness, see
+`props/C07.py`); the third clause holds at full strength since repair C (a6bcf98): `C07_nowal_ack`.
+Full statements of the failing clauses, kept visible:
 
 ```
 theorem C07_no_dup     : ∀ c tr i, cnt (runO c {} tr).stored i ≤ 1
 theorem C07_eventually : ∀ c tr, Cov (runO c {} tr)          -- acked ∧ ¬stored → still in memory or in a WAL file
-theorem C07_nowal_ack  : ∀ c s k rows, c.walOn = false → (write c s k rows).lastAck = true →
-                           (write c s k rows).lastFull = false   -- dropped at enqueue ⇒ not acknowledged
 ```
 Below: `_witness` theorems (concrete traces evaluated on the model instantiated with the GENERATED
 facts) and `_partial` theorems under explicit decidable carve-outs on traces.
@@ -36,11 +35,14 @@ def cfgGen (wal : Bool) : Cfg :=
     rotAge := 301, minFileAge := (Arc.Generated.C07.minFileAgeNs + 999999999) / 1000000000,
     facts := Arc.Generated.C07.facts }
 
+/-- the tree before repairs B and C (explicitly named pre-fix configuration) -/
+def cfgPre (wal : Bool) : Cfg := { cfgGen wal with facts := Facts.round1 }
+
 /-- the facts the witnesses below were found with; a source change that alters any of them (e.g. a
 repair) makes this fail, so the findings are re-examined instead of silently kept -/
 theorem C07_facts_current :
     Arc.Generated.C07.facts = Facts.current ∧ (cfgGen true).safeAge = 1802 ∧ (cfgGen true).minFileAge = 5
-      ∧ Arc.Generated.C07.hooksBeforeComponents = true := by decide
+      ∧ Arc.Generated.C07.hooksBeforeComponents = true ∧ 8 ≤ Arc.Generated.C07.apiWriteCallersChecked := by decide
 
 /-! ## no duplicates -/
 
@@ -202,11 +204,23 @@ theorem C07_eventually_partial (c : Cfg) (tr : Trace) (hc : carveLoss c {} tr = 
 def lostIn (c : Cfg) (tr : Trace) (i : Nat) : Bool :=
   (runO c {} tr).acked.contains i && tot (runO c {} tr) i == 0
 
-/-- (b) queue-full drop with the WAL on: rows 5,6 acknowledged, only in the WAL; the flag is not raised,
-no replay ever runs, the rotated file is purged after safeAge -/
+/-- (b′) queue-full drop with the WAL on, current tree: rows 5,6 are acknowledged and only in the WAL; the
+flag IS raised now (repair B), but no tick comes before the rotated file is older than safeAge, and the
+flag branch purges before it replays -/
 def traceQueueFull : Trace := noObs [.restart, .hold, .write 0 [r 1 0, r 2 0], .write 0 [r 3 0, r 4 0],
   .write 0 [r 5 0, r 6 0], .unhold, .adv 310, .write 1 [r 7 0], .adv 1810, .tick]
-theorem C07_eventually_witness_queue_full : lostIn (cfgGen true) traceQueueFull 5 = true := by decide
+theorem C07_eventually_witness_queue_full_purged_before_replay :
+    lostIn (cfgGen true) traceQueueFull 5 = true := by decide
+
+/-- (b) same overflow, the tick comes in time (file rotated, younger than safeAge), then a graceful
+shutdown -/
+def traceQueueFullShort : Trace := noObs [.restart, .hold, .write 0 [r 1 0, r 2 0], .write 0 [r 3 0, r 4 0],
+  .write 0 [r 5 0, r 6 0], .unhold, .adv 310, .write 1 [r 7 0], .adv 10, .tick, .shutdown 0]
+/-- effect of repair B (52926d5): on the pre-fix tree the overflowed rows are never replayed and the
+shutdown purge removes their last copy; on the current tree the tick replays them -/
+theorem C07_queue_full_flag_effect :
+    lostIn (cfgPre true) traceQueueFullShort 5 = true ∧ lostIn (cfgGen true) traceQueueFullShort 5 = false
+      ∧ cnt (runO (cfgGen true) {} traceQueueFullShort).stored 5 = 1 := by decide
 
 /-- (c) outage longer than safeAge: the tick purges the rotated file before it replays -/
 def traceLongOutage : Trace := noObs [.restart, .mode (some 0), .write 0 [r 1 0, r 2 0], .adv 310,
@@ -262,42 +276,57 @@ theorem C07_eventually_benign_events (c : Cfg) (s : St) (obs : List Nat) (e : Ev
 
 /-! ## WAL disabled: a dropped write is not acknowledged -/
 
-/-- **nowal_ack, partial**: in every state, if the write path reports a queue-full drop (fact
-`queueFullErrors`, false on the current tree), a write is acknowledged only if its rows were buffered
-or handed to the flush queue -/
-theorem C07_nowal_ack_partial (c : Cfg) (s : St) (k : Nat) (rows : List Row) (hw : c.walOn = false)
-    (hr : c.facts.queueFullErrors = true) (ha : (write c s k rows).lastAck = true) :
+/-- **nowal_ack, FULL strength** (current tree, facts regenerated): for every configuration carrying the
+generated facts with the WAL disabled, every state of a buffer that is not closing, every key and batch:
+a write that is acknowledged did not take the queue-full arm of `tryEnqueueFlush`, i.e. its rows were
+buffered or handed to the flush queue.  (`closing` is the flushSkipClosing short-circuit of a buffer whose
+`Close()` is in progress; the HTTP server has stopped by then.  No hypothesis on `closing` is needed for
+the statement about the queue-full arm.) -/
+theorem C07_nowal_ack (c : Cfg) (hf : c.facts = Arc.Generated.C07.facts) (hw : c.walOn = false)
+    (s : St) (k : Nat) (rows : List Row) (ha : (write c s k rows).lastAck = true) :
     (write c s k rows).lastFull = false := by
-  have hrep : reportsFull c = true := by simp [reportsFull, hr, hw]
+  have hrep : reportsFull c = true := by
+    unfold reportsFull; rw [hf, hw]; decide
   unfold write finishWrite at ha ⊢
   simp only [ackOf, hrep, Bool.and_true, Bool.not_eq_true'] at ha
   simpa using ha
 
-/-- (a) WAL disabled, queue saturated: rows 5,6 are dropped by `tryEnqueueFlush`, the write is acknowledged
-(204) and the rows exist nowhere -/
-def traceNoWal : Trace := noObs [.restart, .hold, .write 0 [r 1 0, r 2 0], .write 0 [r 3 0, r 4 0], .write 0 [r 5 0, r 6 0]]
-theorem C07_nowal_ack_witness :
-    (runO (cfgGen false) {} traceNoWal).lastAck = true ∧ (runO (cfgGen false) {} traceNoWal).lastFull = true
-      ∧ lostIn (cfgGen false) traceNoWal 5 = true := by decide
+/-- the same for any facts that report the drop (used to be the `_partial` form) -/
+theorem C07_nowal_ack_of_reports (c : Cfg) (s : St) (k : Nat) (rows : List Row) (hr : reportsFull c = true)
+    (ha : (write c s k rows).lastAck = true) : (write c s k rows).lastFull = false := by
+  unfold write finishWrite at ha ⊢
+  simp only [ackOf, hr, Bool.and_true, Bool.not_eq_true'] at ha
+  simpa using ha
 
-example : ∃ c : Cfg, c.walOn = false ∧ c.facts.queueFullErrors = true :=
-  ⟨{ cfgGen false with facts := { Facts.current with queueFullErrors := true } }, rfl, rfl⟩
+/-- (a) WAL disabled, queue saturated: rows 5,6 are dropped by `tryEnqueueFlush` -/
+def traceNoWal : Trace := noObs [.restart, .hold, .write 0 [r 1 0, r 2 0], .write 0 [r 3 0, r 4 0], .write 0 [r 5 0, r 6 0]]
+
+/-- pre-fix tree (before a6bcf98): the dropped write was acknowledged (204) and its rows exist nowhere;
+current tree: the same write is refused -/
+theorem C07_nowal_ack_prefix_witness :
+    ((runO (cfgPre false) {} traceNoWal).lastAck = true ∧ (runO (cfgPre false) {} traceNoWal).lastFull = true
+      ∧ lostIn (cfgPre false) traceNoWal 5 = true)
+    ∧ ((runO (cfgGen false) {} traceNoWal).lastAck = false ∧ (runO (cfgGen false) {} traceNoWal).lastFull = true
+      ∧ (runO (cfgGen false) {} traceNoWal).acked.contains 5 = false) := by decide
+
+-- non-vacuity: an acknowledged write in the generated WAL-off configuration
+example : (runO (cfgGen false) {} (noObs [.restart, .write 0 [r 1 0, r 2 0]])).lastAck = true := by decide
 
 /-! ## what the small repairs buy (facts edited, same traces) -/
 
-/-- replay before purge, flag on queue-full, error to the client when no WAL, purge after the buffer close -/
+/-- the two repairs NOT applied: A (replay before purge) and D (purge after the buffer close) -/
 def Facts.repaired : Facts :=
-  { Facts.current with tickFlag := [.replay, .purge, .reset], queueFullSetsFlag := true,
-                       queueFullErrors := true, queueFullErrorsOnlyNoWal := true,
-                       shutdown := [.bufClose, .purgeAll, .walClose] }
+  { Facts.current with tickFlag := [.replay, .purge, .reset], shutdown := [.bufClose, .purgeAll, .walClose] }
 
 def cfgRep (wal : Bool) : Cfg := { cfgGen wal with facts := Facts.repaired }
 
-/-- with the four small repairs the witnesses (a), (b), (c) no longer lose; (e) (f) (h) (i) and the
-duplicates remain — they need the purge / delete-after-replay to depend on what reached Parquet -/
+/-- A would stop the losses (b′) and (c) — at the price of replaying everything (duplicates, the reason the
+maintainers purge first); the order D alone does not help (e): the purge must also be skipped when the
+final flush failed; (h) (i) and the duplicates remain — they need the purge / delete-after-replay to
+depend on what reached Parquet -/
 theorem C07_repairs_effect :
     lostIn (cfgRep true) traceQueueFull 5 = false ∧ lostIn (cfgRep true) traceLongOutage 1 = false
-      ∧ (runO (cfgRep false) {} traceNoWal).lastAck = false
+      ∧ cnt (runO (cfgRep true) {} traceLongOutage).stored 3 = 2
       ∧ lostIn (cfgRep true) traceShutdown 1 = true ∧ lostIn (cfgRep true) traceFlagReset 1 = true
       ∧ lostIn (cfgRep true) traceReplayOutage 1 = true := by decide
 
